@@ -352,6 +352,12 @@ func (fr *frame) visit(instr ssa.Instruction) continuation {
 		if p == nil {
 			panic(m.runtimePanic("invalid memory address or nil pointer dereference"))
 		}
+		if m.thr != nil && len(m.thr.watch) > 0 {
+			st := typeOfPtrElem(instr.X.Type()).Underlying().(*types.Struct)
+			if m.thr.watch[st.Field(instr.Field).Name()] {
+				m.yield("field:" + st.Field(instr.Field).Name())
+			}
+		}
 		fr.set(instr, &(*p).(structure)[instr.Field])
 
 	case *ssa.Field:
